@@ -1,7 +1,7 @@
 """C03 - root update accepted iff version+1 and signed per old and new root rules."""
 import random
 
-from ..engines import hostile, noise, rootchain
+from ..engines import hostile, noise, rootchain, threads
 from ..monitors import boundary
 from ..refs import models
 
@@ -19,7 +19,10 @@ ASSUMPTIONS = ["reference models vf/refs/models.py:root_verdict, reference schem
 def plan(tier, seed):
     n = 3000 if tier == "quick" else 80000
     shards = 16 if tier == "quick" else 32
-    return [{"kind": "pairs", "count": n // shards} for _ in range(shards)]
+    specs = [{"kind": "pairs", "count": n // shards} for _ in range(shards)]
+    for T in ([4] if tier == "quick" else [2, 4, 8, 16]):
+        specs.append({"kind": "threads", "threads": T, "count": 160 if tier == "quick" else 1500})
+    return specs
 
 
 def dkey(case, failed):
@@ -62,7 +65,38 @@ def judge(case, rec, lib):
     return model, out
 
 
+def run_threads(spec, rec, lib):
+    """the rule is evaluated on the two documents of THIS call, also while other threads chain other roots"""
+    import copy
+
+    rng = random.Random(spec["seed"])
+    cases, jobs = [], []
+    while len(cases) < spec["count"]:
+        case = rootchain.gen_pair(rng)
+        trusted, new = copy.deepcopy(case["trusted"]), copy.deepcopy(case["new"])
+        model, failed = models.root_verdict(trusted, new)
+        if model.v == models.GREY:
+            continue
+        cases.append((case, model, failed))
+        jobs.append((lib.authentication.verify_root, (trusted, new), {}))
+    res = threads.run_calls(lib, jobs, spec["threads"], rec, spec["seed"], prob=0.05, label="verify_root")
+    if res is None:
+        return
+    for (case, model, failed), out in zip(cases, res):
+        if out is None:
+            continue
+        rec.case("thr|%d|%s" % (spec["threads"], dkey(case, failed)))
+        if model.v == models.REJECT and out.accepted:
+            rec.violation("unsound-accept/verify_root/under-threads/failed=" + ",".join(sorted(failed)),
+                          "verify_root accepted under %d concurrent threads although: %s" % (spec["threads"], ",".join(failed)), case)
+        if model.v == models.ACCEPT and not out.accepted:
+            rec.violation(boundary.mechanism("false-reject", "verify_root[threads]", "accept", out),
+                          "rule satisfied, rejected under %d concurrent threads" % spec["threads"], case)
+
+
 def run_shard(spec, rec, lib):
+    if spec.get("kind") == "threads":
+        return run_threads(spec, rec, lib)
     rng = random.Random(spec["seed"])
     for i in range(spec["count"]):
         case = rootchain.gen_pair(rng)
